@@ -866,8 +866,13 @@ pub fn defs() -> Vec<PropertyDef> {
                     weight: 6,
                     fault_free: false,
                 },
+                Family {
+                    scenario: Box::new(crate::props::c07::RemoveFabric { faults: false, c01: true }),
+                    weight: 1,
+                    fault_free: true,
+                },
             ],
-            rule: "one run = controller X (valid NOC) commissions the device cleanly; the device is then crashed and restarted 2-5 times, each restart forcing X through a new CASE handshake (Sigma1 with resumption first; full Sigma1/2/3 after fallback) while the adversary mutates (bit, byte, truncate, extend), replays/substitutes, drops, duplicates and delays the handshake datagrams; controller Y (own CA, same node id) keeps attempting CASE; invariants on every device probe (CASE sessions only for X's node id/address and an existing fabric), key agreement of session pairs at the end, Y never served, X served again 60 s after the last fault; distinct = distinct trace hash; non-trivial = at least one restart and > 40 datagrams",
+            rule: "one run = controller X (valid NOC) commissions the device cleanly; the device is then crashed and restarted 2-5 times, each restart forcing X through a new CASE handshake (Sigma1 with resumption first; full Sigma1/2/3 after fallback) while the adversary mutates (bit, byte, truncate, extend), replays/substitutes, drops, duplicates and delays the handshake datagrams; controller Y (own CA, same node id) keeps attempting CASE; invariants on every device probe (CASE sessions only for X's node id/address and an existing fabric), key agreement of session pairs at the end, Y never served, X served again 60 s after the last fault; family expelled-peer-after-index-reuse: three controllers, the second one's fabric is removed by the first (a cross-fabric RemoveFabric) while it is reading, a third fabric then takes the freed index, and the expelled controller (which holds a resumption record and its old credentials) must not get a session any more; distinct = distinct trace hash; non-trivial = at least one restart and > 40 datagrams",
             assumptions: vec![
                 "certificate-chain invalidity classes (signature, issuer link, validity window, CA flags, key usage, path length) are not generated: only a foreign-CA identity and on-path mutation are (the chain predicate itself is C19, a pure function)",
                 "harness, oracles trusted; sampling, not enumeration",
